@@ -207,6 +207,47 @@ theorem luahelpers_gather_correct (req : List Nat) (hreq : ∀ r ∈ req, (luaHe
   obtain ⟨nd, hm⟩ := gather_emits_closure_exactly_once _ _ _ h
   exact ⟨out, h, nd, hm, gather_emits_after_dependencies _ _ luahelpers_acyclic _ _ h⟩
 
+/-! ## 2a'. helpers across modules -/
+
+theorem mem_sharedHelpers (mods : List (List Nat)) (h : Nat) :
+    h ∈ sharedHelpers mods ↔ ∃ m ∈ mods, h ∈ m := by
+  induction mods with
+  | nil => simp [sharedHelpers]
+  | cons m rest ih =>
+    simp only [sharedHelpers, List.mem_append, ih, List.mem_cons]
+    constructor
+    · rintro (h1 | ⟨q, hq, hh⟩)
+      · exact ⟨m, Or.inl rfl, h1⟩
+      · exact ⟨q, Or.inr hq, hh⟩
+    · rintro ⟨q, rfl | hq, hh⟩
+      · exact Or.inl hh
+      · exact Or.inr ⟨q, hq, hh⟩
+
+/-- **every helper used in any module is in the written utility file**: when the shared set is gathered for the utility
+    file, every helper that any module (library, namespace, class file) asked for, and every transitive dependency of it,
+    is emitted, each exactly once.  (What the code has to guarantee for this to apply: every module's `c_helper` reaches
+    `shared_helper` before `write_impl_utility` runs: checked by the tie.) -/
+theorem utility_covers_every_module (G : Graph) (mods : List (List Nat)) (out : List Nat)
+    (h : utilityHelpers G mods = .ok out) :
+    out.Nodup ∧ ∀ m ∈ mods, ∀ x, Reach G m x → x ∈ out := by
+  obtain ⟨nd, hm⟩ := gather_emits_closure_exactly_once G _ out h
+  refine ⟨nd, fun m hmm x hr => (hm x).2 (hr.mono ?_)⟩
+  intro u hu
+  exact (mem_sharedHelpers mods u).2 ⟨m, hmm, hu⟩
+
+/-- on the current C helper table the utility gathering never fails for existing helpers -/
+theorem utility_ok_on_chelpers (mods : List (List Nat))
+    (hreq : ∀ m ∈ mods, ∀ r ∈ m, (cHelpers.lookup r).isSome) :
+    ∃ out, utilityHelpers cHelpers mods = .ok out :=
+  gather_ok_of_closed _ chelpers_closed _ (fun r hr => by
+    obtain ⟨m, hm, hrm⟩ := (mem_sharedHelpers mods r).1 hr
+    exact hreq m hm r hrm)
+
+/-- non-vacuity: the namespace module alone needs helper 0 (which needs 1); the library module needs nothing -/
+example : utilityHelpers [(0, [1]), (1, [])] [[], [0]] = .ok [1, 0] := by decide
+/-- a module that is not merged (what the theorem's premise excludes): its helper is missing from the utility file -/
+example : utilityHelpers [(0, [1]), (1, [])] [[]] = .ok [] := by decide
+
 /-! ## 2b. placeholder closure -/
 
 /-- all placeholders of all entries of a kind are provided fields of that kind -/
